@@ -5,6 +5,7 @@ catalogue (clause text -> key, expected value, placement): every difference betw
 results must lie under a key owned by one of the clauses, and every owned key must hold the
 expected value at the documented place (top level in the owning mode, table_properties in sql mode).
 """
+import re
 import itertools
 
 from vf.run import entities, parse
@@ -39,8 +40,13 @@ def C(cid, text, exp, place="top"):
     return {"id": cid, "text": text, "exp": exp, "place": place}
 
 
+# names that are keywords elsewhere in the grammar, as the second / third member of a parenthesised clause list (calibrated on the pinned tree)
+KW_ARGS = ["visible", "policy", "masking", "generated", "encode", "enforced", "order", "set", "ARRAY_X", "comment", "check", "key", "index"]
+
+
 def catalogue(rng):
     """dialect -> (ordered?, [clause choices per slot])  each slot is a list of alternatives; one alternative per slot is used"""
+    kwi = rng.randrange(len(KW_ARGS))
     fmt = rng.choice(["PARQUET", "ORC", "TEXTFILE", "AVRO"])
     loc = rng.choice(["'s3://b/p'", "'hdfs://nn/x/y'", "'/data/t'"])
     n = rng.choice([0, 1, rng.randint(2, 64), rng.randint(2, 64)])      # zero is a value like any other
@@ -99,7 +105,8 @@ def catalogue(rng):
         ]),
         "snowflake": (False, [
             [C("cluster_by", "CLUSTER BY (a, b)", {"cluster_by": ["a", "b"]}), C("cluster_by", "CLUSTER BY (b)", {"cluster_by": ["b"]}),
-             C("cluster_by", "CLUSTER BY (b, a)", {"cluster_by": ["b", "a"]}), C("cluster_by", "CLUSTER BY (b, a, b)", {"cluster_by": ["b", "a", "b"]})],
+             C("cluster_by", "CLUSTER BY (b, a)", {"cluster_by": ["b", "a"]}), C("cluster_by", "CLUSTER BY (b, a, b)", {"cluster_by": ["b", "a", "b"]})]
+            + [C("cluster_by", "CLUSTER BY (a, %s)" % w, {"cluster_by": ["a", w]}) for w in KW_ARGS] + [C("cluster_by", "CLUSTER BY (a, b, %s)" % KW_ARGS[kwi], {"cluster_by": ["a", "b", KW_ARGS[kwi]]})],
             [C("comment", "COMMENT = " + lit, {"comment": lit}, "common")],
             [C("data_retention_time_in_days", "DATA_RETENTION_TIME_IN_DAYS = %d" % n, {"data_retention_time_in_days": n}, "props")],
             [C("max_data_extension_time_in_days", "MAX_DATA_EXTENSION_TIME_IN_DAYS = %d" % n, {"max_data_extension_time_in_days": str(n)}, "props")],
@@ -123,7 +130,8 @@ def catalogue(rng):
             [C("inherits", "INHERITS (s.parent)", {"inherits": {"schema": "s", "table_name": "parent"}}),
              C("inherits", "INHERITS (%s)" % parent, {"inherits": {"schema": None, "table_name": parent}})],
             [C("partition_by", "PARTITION BY RANGE (a)", {"partition_by": {"columns": ["a"], "type": "RANGE"}}, "common"),
-             C("partition_by", "PARTITION BY HASH (a, b)", {"partition_by": {"columns": ["a", "b"], "type": "HASH"}}, "common")],
+             C("partition_by", "PARTITION BY HASH (a, b)", {"partition_by": {"columns": ["a", "b"], "type": "HASH"}}, "common"),
+             C("partition_by", "PARTITION BY HASH (a, %s)" % KW_ARGS[kwi], {"partition_by": {"columns": ["a", KW_ARGS[kwi]], "type": "HASH"}}, "common")],
         ]),
         "spark_sql": (True, [
             [C("using", "USING parquet", {"using": "parquet"}, "props"), C("using", "USING delta", {"using": "delta"}, "props"), C("using", 'USING "delta"', {"using": '"delta"'}, "props")],
@@ -185,9 +193,24 @@ def check_case(ctx, case):
         ctx.obs["one_line_statements"] += 1
     if case.get("body"):
         ctx.obs["like_body_cases"] += 1
+    if case.get("body") and any(re.search(r", (%s)\)" % "|".join(KW_ARGS), c["text"]) for c in clauses):
+        # keyword-shaped list members are calibrated for tables with a column list only (after LIKE the lexer has no column-list context: C06's ground)
+        ctx.obs["keyword_shaped_members_skipped_for_like_bodies"] += 1
+        return
+    n_pre = 0
+    m_inh = re.search(r"INHERITS \(([^)]+)\)", full_ddl)
+    if m_inh and case.get("parent_defined"):
+        # the table a clause names is defined by an earlier statement of the same script: the clause still only records the reference
+        pre = "CREATE TABLE %s (pid int PRIMARY KEY, created date);\n" % m_inh.group(1)
+        base_ddl, full_ddl, n_pre = pre + base_ddl, pre + full_ddl, 1
+        ctx.obs["clause_names_a_table_defined_earlier"] += 1
     ctx.nontrivial_case(digest(full_ddl + mode))
     b = parse(base_ddl, None, output_mode=mode)
     r = parse(full_ddl, None, output_mode=mode)
+    if n_pre and b[0] == "ok" and r[0] == "ok" and len(entities(b[1])) == 2 and len(entities(r[1])) == 2:
+        if entities(b[1])[0] != entities(r[1])[0]:
+            ctx.violation("clause_changes_another_table", dict(case, ddl=full_ddl), {"without": short(entities(b[1])[0], 200), "with": short(entities(r[1])[0], 200)})
+        b, r = ("ok", entities(b[1])[1:]), ("ok", entities(r[1])[1:] + [e for e in r[1] if e not in entities(r[1])])
     ctx.obs["dialect:" + case["dialect"]] += 1
     for c in clauses:
         ctx.obs_sets["clauses_exercised"].add(case["dialect"] + ":" + c["id"])
@@ -267,6 +290,8 @@ def run_shard(ctx):
                         i += 1
                         if ctx.mine(i):
                             check_case(ctx, {"gen": "single", "dialect": dialect, "mode": mode, "last": last, "clauses": [c]})
+                            if c["id"] == "inherits":
+                                check_case(ctx, {"gen": "single", "dialect": dialect, "mode": mode, "last": last, "clauses": [c], "parent_defined": True})
                             if li < 3 and ok_after_like(dialect, c):
                                 check_case(ctx, {"gen": "single_like_body", "dialect": dialect, "mode": mode, "last": last, "clauses": [c], "body": sorted(LIKE_BODIES)[li]})
         # every ordered pair of compatible clauses
@@ -276,7 +301,7 @@ def run_shard(ctx):
             i += 1
             if ctx.mine(i):
                 r = ctx.sub_rng("pair", i)
-                check_case(ctx, {"gen": "pair", "dialect": dialect, "mode": r.choice([dialect, "sql"]), "last": r.choice(LAST),
+                check_case(ctx, {"gen": "pair", "parent_defined": True, "dialect": dialect, "mode": r.choice([dialect, "sql"]), "last": r.choice(LAST),
                                  "clauses": [r.choice(slots[s1]), r.choice(slots[s2])]})
     dialects = sorted(cat0)
     for j in range(ctx.budget(1000, 40000)):
